@@ -5,8 +5,8 @@ for `expand(e)`, decide
   1. value       `NF.equiv R e` — the rational-function normal forms agree (soundness: Lemmas/NFSound.lean);
   2. completeness `expandedB R` — outside function arguments `R` contains no sum as a key of a sum, no factor
                  `(sum)^(positive integer)` in a product and no `(sum)^(positive integer)`;
-  3. canonical   on the polynomial fragment (`polyB e`: numbers, symbols, sums, products and non-negative integer
-                 powers) `R` is *the* canonical expanded form: `R` is, entry for entry in wire order, the rendering
+  3. canonical   on the polynomial fragment (`polyB e`: numbers, atoms — symbols, constants, opaque function
+                 applications —, sums, products and non-negative integer powers) `R` is *the* canonical expanded form: `R` is, entry for entry in wire order, the rendering
                  of the reduced monomial dictionary `canonPoly e`, `R` is itself a polynomial expression and
                  `canonPoly R = canonPoly e`.
 
@@ -63,12 +63,17 @@ def natExp : Expr → Bool
   | _ => false
 
 mutual
-  /-- polynomials in symbols with exact coefficients, written with sums, products and non-negative powers -/
+  /-- polynomials in atoms (symbols, constants, opaque function applications) with exact coefficients, written
+  with sums, products and non-negative integer powers -/
   def polyB : Expr → Bool
     | .int _ => true
     | .rat _ d => d != 0
     | .cplx re im => re.den != 0 && im.den != 0
     | .sym _ => true
+    | .dummy _ _ => true
+    | .const _ => true
+    | .fsym _ _ => true
+    | .app _ _ => true
     | .add c ts => isNumLit c && polyTerms ts
     | .mul c fs => isNumLit c && polyFacs fs
     | .pow b e => natExp e && polyB b
